@@ -1,4 +1,12 @@
-(* C11/Model.v — the metadata store, as coded in /repo/src/saml2/mdstore.py (after 12b6034b).
+(* C11/Model.v — the metadata store, as coded in /repo/src/saml2/mdstore.py (after a8da97db).
+
+   The five repairs d8b1d2a4 (service: first source that has the entity answers), 18964551
+   (with_descriptor: first source wins), fafdf54c (unsigned document under a certificate refused),
+   254349bd (MDQ: scratch map, only the asked entity, unusable answer = KeyError), a8da97db (inline /
+   file sources of list-style items verify) and ab8ae013 (an EntitiesDescriptor MDQ answer on which parse()
+   raises TooOld / MustValueError is a KeyError too) are each switched by one field of [flags]: [cur] (all false)
+   is the code as it is now, [v0] (all true) the code before them; any mixture is the code with
+   exactly those commits reverse-applied.
 
    Mirrors: InMemoryMetaData.do_entity_descriptor / parse / service / attribute_requirement /
    signed / parse_and_check_signature, MetaData.certs / with_descriptor, MetaDataFile /
@@ -6,14 +14,10 @@
    reload / service / __getitem__ / keys / with_descriptor / attribute_requirement /
    entity_attributes / entity_categories / registration_info / single_sign_on_service /
    assertion_consumer_service, mdie.to_dict (through the abstraction: an entity descriptor is
-   the record [ent]).  Quirks are kept:
-     - MetadataStore.service skips a source whose answer is empty (fall-through);
-     - with_descriptor merges with dict.update (last source wins);
-     - parse_and_check_signature accepts an unsigned document although a cert is configured;
-     - it parses (and fills self.entity) BEFORE verifying: an MDQ source keeps what a failed
-       fetch parsed; _fetch_metadata stores whatever entity the answer describes;
-     - a MetaDataFile built by imp() has no security context (signed document + cert =>
-       AttributeError);
+   the record [ent]).  Quirks that are kept:
+     - parse_and_check_signature parses BEFORE verifying (harmless now: a static source is registered
+       only after a successful load, an MDQ fetch parses into a scratch map);
+     - MetadataStore.service looks the entity up twice in the source that has it;
      - validUntil is looked at when the document is parsed, never again. *)
 From Coq Require Import String List Bool ZArith Arith.
 From Verif Require Import Base.Str.
@@ -42,6 +46,18 @@ Definition N_AUTHNQ := "authn_query_service".
 
 (* kinds looked at by do_entity_descriptor's protocol filter, and by certs(..., "any") *)
 Definition PROTO_KINDS := [K_SPSSO; K_IDPSSO; K_ROLE; K_AUTHN; K_AA; K_PDP].
+
+(* which repairs are REVERTED (true = behaviour before the commit) *)
+Record flags := { f_fall : bool;       (* d8b1d2a4 *)
+                  f_last : bool;       (* 18964551 *)
+                  f_unsigned : bool;   (* fafdf54c *)
+                  f_mdq : bool;        (* 254349bd *)
+                  f_inline : bool;     (* a8da97db *)
+                  f_group : bool }.    (* ab8ae013 *)
+Definition cur : flags :=
+  {| f_fall := false; f_last := false; f_unsigned := false; f_mdq := false; f_inline := false; f_group := false |}.
+Definition v0 : flags :=
+  {| f_fall := true; f_last := true; f_unsigned := true; f_mdq := true; f_inline := true; f_group := true |}.
 
 (* ---------------------------------------------------------------- abstract documents *)
 Record svc := Svc { s_name : string; s_binding : string; s_loc : string; s_index : option string }.
@@ -176,38 +192,46 @@ Definition is_group (p : payload) : bool := match p with D (Group _ _) => true |
 Definition payload_signed (p : payload) (sg : sigstate) : bool :=
   match p with D _ => is_signed sg | _ => false end.
 (* security.verify_signature(txt, node_name, cert_file): crypto is data of the case *)
-Definition verify (k : skind) (node : option bool) (p : payload) (sg : sigstate) : bool :=
-  match k with
-  | KFile => false         (* no security context: AttributeError *)
-  | _ => match sg with
-         | SigValid => match node with None => true | Some g => Bool.eqb g (is_group p) end
-         | _ => false
-         end
+Definition verify (fl : flags) (k : skind) (node : option bool) (p : payload) (sg : sigstate) : bool :=
+  match k, f_inline fl with
+  | KFile, true => false         (* before a8da97db: no security context, AttributeError *)
+  | _, _ => match sg with
+            | SigValid => match node with None => true | Some g => Bool.eqb g (is_group p) end
+            | _ => false
+            end
   end.
-(* rest of parse_and_check_signature after parse(): true = returns True, false = raises *)
-Definition sig_gate (cert : bool) (k : skind) (node : option bool) (p : payload) (sg : sigstate) : bool :=
+(* rest of parse_and_check_signature after parse(): true = returns True, false = raises.
+   A document without signature under a certificate is refused (fafdf54c) unless nothing was parsed
+   as metadata at all (foreign root element). *)
+Definition sig_gate (fl : flags) (cert : bool) (k : skind) (node : option bool) (p : payload) (sg : sigstate) : bool :=
   if negb cert then true
-  else if negb (payload_signed p sg) then true
-  else verify k node p sg.
+  else if negb (payload_signed p sg) then
+         (if f_unsigned fl then true else match p with D _ => false | _ => true end)
+  else verify fl k node p sg.
 
 (* what reaches the source object.  newstyle = built by a list-style imp() item:
-     InMemoryMetaData never looks at a cert; load("local", file) passes no cert, the list style does;
-     the list style passes neither check_validity nor node_name to MetaDataExtern *)
-Definition eff_cert (ns : bool) (sp : srcspec) : bool :=
-  match sp_kind sp with KInline => false | KFile => ns && sp_cert sp | _ => sp_cert sp end.
+     load("inline", text) / load("local", file) pass no cert, the list style does (before a8da97db
+     InMemoryMetaData swallowed it); the list style passes neither check_validity nor node_name to
+     MetaDataExtern *)
+Definition eff_cert (fl : flags) (ns : bool) (sp : srcspec) : bool :=
+  match sp_kind sp with
+  | KInline => if f_inline fl then false else ns && sp_cert sp
+  | KFile => ns && sp_cert sp
+  | _ => sp_cert sp
+  end.
 Definition eff_cv (ns : bool) (sp : srcspec) : bool :=
   match sp_kind sp with KRemote => ns || sp_cv sp | _ => true end.
 Definition eff_node (ns : bool) (sp : srcspec) : option bool :=
   match sp_kind sp with KRemote => if ns then None else sp_node sp | KMdq => Some false | _ => None end.
 
 (* MetaDataFile / MetaDataExtern / InMemoryMetaData .load(): None = exception *)
-Definition load_static (ns : bool) (sp : srcspec) (now : Z) (f : fetched) : option emap :=
+Definition load_static (fl : flags) (ns : bool) (sp : srcspec) (now : Z) (f : fetched) : option emap :=
   match f with
   | FMissing => None                         (* FileNotFoundError / SourceNotFound *)
   | FBody p sg =>
       match parse (eff_cv ns sp) now [] p with
       | None => None
-      | Some m => if sig_gate (eff_cert ns sp) (sp_kind sp) (eff_node ns sp) p sg then Some m else None
+      | Some m => if sig_gate fl (eff_cert fl ns sp) (sp_kind sp) (eff_node ns sp) p sg then Some m else None
       end
   end.
 
@@ -220,7 +244,9 @@ Definition server := list (string * fetched).
 Definition ask (srv : server) (e : string) : fetched :=
   match lookup e srv with Some f => f | None => FMissing end.
 
-Definition mdx_fetch (x : mdx) (now : Z) (srv : server) (e : string) : mdx * res ent :=
+(* _fetch_metadata before 254349bd: parse straight into the source's map, verify afterwards;
+   SAMLError / SignatureError escape *)
+Definition mdx_fetch_v0 (fl : flags) (x : mdx) (now : Z) (srv : server) (e : string) : mdx * res ent :=
   match ask srv e with
   | FMissing => (x, RKeyErr)                                   (* status != 200 *)
   | FBody p sg =>
@@ -228,7 +254,7 @@ Definition mdx_fetch (x : mdx) (now : Z) (srv : server) (e : string) : mdx * res
       | None => (x, RRaise)
       | Some m =>
           let x1 := {| x_ents := m; x_exp := x_exp x; x_cert := x_cert x; x_period := x_period x |} in
-          if sig_gate (x_cert x) KMdq (Some false) p sg then
+          if sig_gate fl (x_cert x) KMdq (Some false) p sg then
             let x2 := {| x_ents := m; x_exp := upsert e (now + x_period x)%Z (x_exp x);
                          x_cert := x_cert x; x_period := x_period x |} in
             match lookup e m with
@@ -239,15 +265,37 @@ Definition mdx_fetch (x : mdx) (now : Z) (srv : server) (e : string) : mdx * res
       end
   end.
 
-Definition mdx_get (x : mdx) (now : Z) (srv : server) (e : string) : mdx * res ent :=
+(* _fetch_metadata now: the answer is parsed into a scratch map; SAMLError / SignatureError become
+   KeyError, and since ab8ae013 so do TooOld and MustValueError (which only an EntitiesDescriptor answer can
+   cause); the expiration date is set, then the asked entity (only) is stored *)
+Definition mdx_fetch (fl : flags) (x : mdx) (now : Z) (srv : server) (e : string) : mdx * res ent :=
+  if f_mdq fl then mdx_fetch_v0 fl x now srv e else
+  match ask srv e with
+  | FMissing => (x, RKeyErr)
+  | FBody p sg =>
+      match parse true now [] p with
+      | None => (x, if f_group fl then match p with D (Group _ _) => RRaise | _ => RKeyErr end   (* before ab8ae013 *)
+                    else RKeyErr)
+      | Some m =>
+          if sig_gate fl (x_cert x) KMdq (Some false) p sg then
+            let ex := upsert e (now + x_period x)%Z (x_exp x) in
+            match lookup e m with
+            | Some en => ({| x_ents := upsert e en (x_ents x); x_exp := ex; x_cert := x_cert x; x_period := x_period x |}, ROk en)
+            | None => ({| x_ents := x_ents x; x_exp := ex; x_cert := x_cert x; x_period := x_period x |}, RKeyErr)
+            end
+          else (x, RKeyErr)
+      end
+  end.
+
+Definition mdx_get (fl : flags) (x : mdx) (now : Z) (srv : server) (e : string) : mdx * res ent :=
   match lookup e (x_ents x) with
-  | None => mdx_fetch x now srv e
+  | None => mdx_fetch fl x now srv e
   | Some en =>
       match lookup e (x_exp x) with
       | None => (x, RKeyErr)                                    (* expiration_date[item] *)
       | Some t =>
           if (now <=? t)%Z then (x, ROk en)
-          else mdx_fetch {| x_ents := remove_key e (x_ents x); x_exp := x_exp x;
+          else mdx_fetch fl {| x_ents := remove_key e (x_ents x); x_exp := x_exp x;
                             x_cert := x_cert x; x_period := x_period x |} now srv e
       end
   end.
@@ -272,16 +320,16 @@ Fixpoint kupsert (k : key) (v : source) (l : sources) : sources :=
 
 Definition ents_of (s : source) : emap := match s with SStatic m => m | SMdx x => x_ents x end.
 
-Definition src_get (now : Z) (srv : server) (s : source) (e : string) : source * res ent :=
+Definition src_get (fl : flags) (now : Z) (srv : server) (s : source) (e : string) : source * res ent :=
   match s with
   | SStatic m => (s, match lookup e m with Some en => ROk en | None => RKeyErr end)
-  | SMdx x => let '(x', r) := mdx_get x now srv e in (SMdx x', r)
+  | SMdx x => let '(x', r) := mdx_get fl x now srv e in (SMdx x', r)
   end.
 
 (* MetadataStore.load(typ, ...) for one source.  newstyle = the source comes from a
    list-style imp() item (key of an inline source is then the text itself).
    Result: store afterwards, and whether the call returned (true) or raised (false). *)
-Definition load1 (newstyle : bool) (now : Z) (st : store) (sp : srcspec) (f : fetched) : store * bool :=
+Definition load1 (fl : flags) (newstyle : bool) (now : Z) (st : store) (sp : srcspec) (f : fetched) : store * bool :=
   let ii' := match sp_kind sp with KInline => if newstyle then st_ii st else S (st_ii st) | _ => st_ii st end in
   let k := match sp_kind sp with KInline => if newstyle then KS (sp_key sp) else KI ii' | _ => KS (sp_key sp) end in
   match sp_kind sp with
@@ -290,22 +338,22 @@ Definition load1 (newstyle : bool) (now : Z) (st : store) (sp : srcspec) (f : fe
       else ({| st_srcs := kupsert k (SMdx {| x_ents := []; x_exp := []; x_cert := sp_cert sp;
                                                x_period := sp_period sp |}) (st_srcs st);
                 st_ii := ii' |}, true)
-  | _ => match load_static newstyle sp now f with
+  | _ => match load_static fl newstyle sp now f with
          | Some m => ({| st_srcs := kupsert k (SStatic m) (st_srcs st); st_ii := ii' |}, true)
          | None => ({| st_srcs := st_srcs st; st_ii := ii' |}, false)
          end
   end.
 
-Fixpoint imp (newstyle : bool) (now : Z) (st : store) (items : list (srcspec * fetched)) : store * bool :=
+Fixpoint imp (fl : flags) (newstyle : bool) (now : Z) (st : store) (items : list (srcspec * fetched)) : store * bool :=
   match items with
   | [] => (st, true)
   | (sp, f) :: r =>
-      let '(st1, ok) := load1 newstyle now st sp f in
-      if ok then imp newstyle now st1 r else (st1, false)
+      let '(st1, ok) := load1 fl newstyle now st sp f in
+      if ok then imp fl newstyle now st1 r else (st1, false)
   end.
 
-Definition reload (newstyle : bool) (now : Z) (st : store) (items : list (srcspec * fetched)) : store * bool :=
-  let '(st1, ok) := imp newstyle now {| st_srcs := []; st_ii := st_ii st |} items in
+Definition reload (fl : flags) (newstyle : bool) (now : Z) (st : store) (items : list (srcspec * fetched)) : store * bool :=
+  let '(st1, ok) := imp fl newstyle now {| st_srcs := []; st_ii := st_ii st |} items in
   if ok then (st1, true) else ({| st_srcs := st_srcs st; st_ii := st_ii st1 |}, false).
 
 (* ---------------------------------------------------------------- lookups *)
@@ -357,35 +405,71 @@ Inductive answer :=
 | AKeys (l : list string)
 | AWith (l : list (string * list string)).      (* entity id, locations of all its endpoints *)
 
-Fixpoint store_get (now : Z) (srv : server) (srcs : sources) (e : string) : sources * res ent :=
+Fixpoint store_get (fl : flags) (now : Z) (srv : server) (srcs : sources) (e : string) : sources * res ent :=
   match srcs with
   | [] => ([], RKeyErr)
   | (k, s) :: r =>
-      let '(s', g) := src_get now srv s e in
+      let '(s', g) := src_get fl now srv s e in
       match g with
-      | RKeyErr => let '(r', a) := store_get now srv r e in ((k, s') :: r', a)
+      | RKeyErr => let '(r', a) := store_get fl now srv r e in ((k, s') :: r', a)
       | _ => ((k, s') :: r, g)
       end
   end.
 
-Fixpoint store_service (now : Z) (srv : server) (srcs : sources) (e typ name : string) (b : option string)
+(* the answer of ONE source that has the entity *)
+Definition svc_answer (en : ent) (typ name : string) (b : option string) : answer :=
+  match ent_service en typ name b with
+  | SList (x :: l) => ASvcs (x :: l)
+  | SDict (x :: d) => ADict (x :: d)
+  | SNone => AUnknown
+  | _ => AUnsupported
+  end.
+
+(* MetadataStore.service before d8b1d2a4: every source is asked, the first non-empty answer wins *)
+Fixpoint store_service_v0 (fl : flags) (now : Z) (srv : server) (srcs : sources) (e typ name : string) (b : option string)
          (known : bool) : sources * answer :=
   match srcs with
   | [] => ([], if known then AUnsupported else AUnknown)
   | (k, s) :: r =>
-      let '(s', g) := src_get now srv s e in
+      let '(s', g) := src_get fl now srv s e in
       match g with
       | RRaise => ((k, s') :: r, ARaise)
-      | RKeyErr => let '(r', a) := store_service now srv r e typ name b known in ((k, s') :: r', a)
+      | RKeyErr => let '(r', a) := store_service_v0 fl now srv r e typ name b known in ((k, s') :: r', a)
       | ROk en =>
           match ent_service en typ name b with
           | SList (x :: l) => ((k, s') :: r, ASvcs (x :: l))
           | SDict (x :: d) => ((k, s') :: r, ADict (x :: d))
-          | SNone => let '(r', a) := store_service now srv r e typ name b known in ((k, s') :: r', a)
-          | _ => let '(r', a) := store_service now srv r e typ name b true in ((k, s') :: r', a)
+          | SNone => let '(r', a) := store_service_v0 fl now srv r e typ name b known in ((k, s') :: r', a)
+          | _ => let '(r', a) := store_service_v0 fl now srv r e typ name b true in ((k, s') :: r', a)
           end
       end
   end.
+
+(* MetadataStore.service now: `_md[entity_id]` decides whether the source has the entity; the first one
+   that has it answers (its own service() looks the entity up a second time) and the walk stops *)
+Fixpoint store_service_new (fl : flags) (now : Z) (srv : server) (srcs : sources) (e typ name : string) (b : option string)
+  : sources * answer :=
+  match srcs with
+  | [] => ([], AUnknown)
+  | (k, s) :: r =>
+      let '(s1, g1) := src_get fl now srv s e in
+      match g1 with
+      | RRaise => ((k, s1) :: r, ARaise)
+      | RKeyErr => let '(r', a) := store_service_new fl now srv r e typ name b in ((k, s1) :: r', a)
+      | ROk _ =>
+          let '(s2, g2) := src_get fl now srv s1 e in
+          ((k, s2) :: r, match g2 with
+                         | ROk en => svc_answer en typ name b
+                         | RKeyErr => AUnknown
+                         | RRaise => ARaise
+                         end)
+      end
+  end.
+
+Definition store_service (fl : flags) (now : Z) (srv : server) (srcs : sources) (e typ name : string) (b : option string)
+  : sources * answer :=
+  if f_fall fl then store_service_v0 fl now srv srcs e typ name b false
+  else store_service_new fl now srv srcs e typ name b.
 
 (* MetaData.certs *)
 Definition extract_certs (use : string) (rs : list role) : list string :=
@@ -429,15 +513,15 @@ Definition src_with (s : source) (kind : string) : list (string * list string) :
   map (fun ke => (fst ke, locs (snd ke))) (filter (fun ke => has_descriptor (snd ke) kind) (ents_of s)).
 
 (* MetadataStore.attribute_requirement: first source that CONTAINS the id (no fetch), then self[id] *)
-Fixpoint store_attr_req (now : Z) (srv : server) (srcs : sources) (e : string) (index : option string)
+Fixpoint store_attr_req (fl : flags) (now : Z) (srv : server) (srcs : sources) (e : string) (index : option string)
   : sources * answer :=
   match srcs with
   | [] => ([], ANone)
   | (k, s) :: r =>
       if has_key e (ents_of s) then
-        let '(s', g) := src_get now srv s e in
+        let '(s', g) := src_get fl now srv s e in
         ((k, s') :: r, match g with ROk en => ent_attr_req en index | RKeyErr => AKeyErr | RRaise => ARaise end)
-      else let '(r', a) := store_attr_req now srv r e index in ((k, s) :: r', a)
+      else let '(r', a) := store_attr_req fl now srv r e index in ((k, s) :: r', a)
   end.
 
 Inductive query :=
@@ -452,28 +536,39 @@ Inductive query :=
 | QKeys
 | QWith (kind : string).
 
-Definition via_get (now : Z) (srv : server) (srcs : sources) (e : string) (onkey : answer) (f : ent -> answer)
+Definition via_get (fl : flags) (now : Z) (srv : server) (srcs : sources) (e : string) (onkey : answer) (f : ent -> answer)
   : sources * answer :=
-  let '(srcs', g) := store_get now srv srcs e in
+  let '(srcs', g) := store_get fl now srv srcs e in
   (srcs', match g with ROk en => f en | RKeyErr => onkey | RRaise => ARaise end).
 
 Definition dflt (b : option string) (d : string) : option string :=
   match b with None => Some d | Some _ => b end.
 
-Definition answer_query (now : Z) (srv : server) (srcs : sources) (q : query) : sources * answer :=
+(* MetadataStore.with_descriptor before 18964551: dict.update over the sources (last wins) *)
+Definition with_v0 (srcs : sources) (kind : string) : list (string * list string) :=
+  fold_left (fun acc ks => fold_left (fun acc' kv => upsert (fst kv) (snd kv) acc') (src_with (snd ks) kind) acc) srcs [].
+(* ... and now: every entity from the first source that has it *)
+Fixpoint with_new (srcs : sources) (seen : list string) (kind : string) : list (string * list string) :=
+  match srcs with
+  | [] => []
+  | (k, s) :: r =>
+      map (fun ke => (fst ke, locs (snd ke)))
+          (filter (fun ke => negb (mem (fst ke) seen) && has_descriptor (snd ke) kind) (ents_of s))
+      ++ with_new r (seen ++ map fst (ents_of s)) kind
+  end.
+
+Definition answer_query (fl : flags) (now : Z) (srv : server) (srcs : sources) (q : query) : sources * answer :=
   match q with
-  | QGet e => via_get now srv srcs e AKeyErr (fun en => AEnt (e_affil en) (fp en))
-  | QService e typ name b => store_service now srv srcs e typ name b false
-  | QSso e b => store_service now srv srcs e K_IDPSSO N_SSO (dflt b BINDING_HTTP_REDIRECT) false
-  | QAcs e b => store_service now srv srcs e K_SPSSO N_ACS (dflt b BINDING_HTTP_POST) false
-  | QCerts e d u => via_get now srv srcs e AKeyErr (fun en => ent_certs en d u)
-  | QAttrReq e i => store_attr_req now srv srcs e i
-  | QCats e => via_get now srv srcs e (ACats []) (fun en => ACats (ent_cats en))
-  | QReg e => via_get now srv srcs e (AReg None None []) ent_reg
+  | QGet e => via_get fl now srv srcs e AKeyErr (fun en => AEnt (e_affil en) (fp en))
+  | QService e typ name b => store_service fl now srv srcs e typ name b
+  | QSso e b => store_service fl now srv srcs e K_IDPSSO N_SSO (dflt b BINDING_HTTP_REDIRECT)
+  | QAcs e b => store_service fl now srv srcs e K_SPSSO N_ACS (dflt b BINDING_HTTP_POST)
+  | QCerts e d u => via_get fl now srv srcs e AKeyErr (fun en => ent_certs en d u)
+  | QAttrReq e i => store_attr_req fl now srv srcs e i
+  | QCats e => via_get fl now srv srcs e (ACats []) (fun en => ACats (ent_cats en))
+  | QReg e => via_get fl now srv srcs e (AReg None None []) ent_reg
   | QKeys => (srcs, AKeys (flat_map (fun ks => map fst (ents_of (snd ks))) srcs))
-  | QWith kind => (srcs, AWith (fold_left (fun acc ks =>
-                                  fold_left (fun acc' kv => upsert (fst kv) (snd kv) acc') (src_with (snd ks) kind) acc)
-                                srcs []))
+  | QWith kind => (srcs, AWith (if f_last fl then with_v0 srcs kind else with_new srcs [] kind))
   end.
 
 (* ---------------------------------------------------------------- operations / histories *)
@@ -486,25 +581,25 @@ Inductive op :=
 
 Record world := { w_store : store; w_now : Z; w_srv : server }.
 
-Definition step (w : world) (o : op) : world * list answer :=
+Definition step (fl : flags) (w : world) (o : op) : world * list answer :=
   match o with
   | OLoad ns sp f =>
-      let '(st, ok) := load1 ns (w_now w) (w_store w) sp f in
+      let '(st, ok) := load1 fl ns (w_now w) (w_store w) sp f in
       ({| w_store := st; w_now := w_now w; w_srv := w_srv w |}, [AFlag ok])
   | OReload ns items =>
-      let '(st, ok) := reload ns (w_now w) (w_store w) items in
+      let '(st, ok) := reload fl ns (w_now w) (w_store w) items in
       ({| w_store := st; w_now := w_now w; w_srv := w_srv w |}, [AFlag ok])
   | OTick dt => ({| w_store := w_store w; w_now := (w_now w + dt)%Z; w_srv := w_srv w |}, [])
   | OServer t => ({| w_store := w_store w; w_now := w_now w; w_srv := t |}, [])
   | OQuery q =>
-      let '(srcs, a) := answer_query (w_now w) (w_srv w) (st_srcs (w_store w)) q in
+      let '(srcs, a) := answer_query fl (w_now w) (w_srv w) (st_srcs (w_store w)) q in
       ({| w_store := {| st_srcs := srcs; st_ii := st_ii (w_store w) |}; w_now := w_now w; w_srv := w_srv w |}, [a])
   end.
 
-Fixpoint run (w : world) (h : list op) : list answer :=
+Fixpoint run (fl : flags) (w : world) (h : list op) : list answer :=
   match h with
   | [] => []
-  | o :: r => let '(w', out) := step w o in out ++ run w' r
+  | o :: r => let '(w', out) := step fl w o in out ++ run fl w' r
   end.
 
 Definition init (now : Z) : world := {| w_store := {| st_srcs := []; st_ii := 0 |}; w_now := now; w_srv := [] |}.
